@@ -130,6 +130,14 @@ CHECKS.update({
         technique="Lean 4 proof (scanner decomposition, table lookup, include search) + differential execution against the real preprocessor and loader"),
 })
 
+CHECKS.update({
+    "C10": dict(
+        category="proof",
+        text="Partial. Lean 4 clause-level model of the loader (load) and of printCfg with its audience scheduler (print, sched), an equivalence on configurations (Cfg.Equiv: titles, roles, cast, tempo, scenes, storyline, effective repeat settings, members in order with their clauses, interpretation) and on printed texts (SameText); theorems print_loads (what printCfg emits loads again to an equivalent configuration, for every regexp-match oracle and clause list), members_order_preserved, sched_complete, print_fixpoint, sameText_decides, defines_precedence, reload_invariant, and decide-checked witnesses of the four repaired printer defects. Generated accepted configurations (every construct of the property's list, audience definitions that zig-zag between members): model print vs the real printed text parsed back; on the real code: the printed text reloads, prints to the same text, compiles to the same steps/play/story and generates the same scripts; shakespeare -n -p vs the in-process print; result.js Config.",
+        note="Partial: the fit of the clause regexps and the field splitting, govaluate variable extraction and duration formatting are oracle parameters of the model (covered by the correspondence only). Known finding: a parameter value containing ~word~ is expanded again on reload (no escape syntax exists).",
+        technique="Lean 4 proof (loader/printer round trip, scheduler invariant) + differential execution against the real parser and printer"),
+})
+
 NOT_APPLICABLE = [
     {"property_id": "C14", "reason": "data-race freedom is a property of memory accesses under the Go memory model; no executable Lean model compared on values can exhibit an unsynchronised access (DESIGN.md 5/C14)"},
 ]
